@@ -14,7 +14,7 @@ ID = "C15"
 LEVEL = "exploration"
 RULE = (
     "case = loop shape (self loop, 2-4 stage cycle, loop with side branch and fan-in - the side branch outside or inside the "
-    "loop body -, forward jump over a diamond) x "
+    "loop body -, forward jump over a diamond, forward jump followed by backward jumps that re-arm the bypassed stage) x "
     "requested iterations 0..limit+3 x _max_jumps in {absent,0,1,2,3,10,12} at workflow or stage level x (FIFO / shuffled "
     "delivery with withheld acks / one message held back / 2-4 worker threads interleaved at SQL-statement granularity). Oracles: effective jumps <= limit; limit reached => source "
     "TERMINAL and workflow final; per-iteration ledger counts of every stage of the independently computed re-arm set "
@@ -22,7 +22,7 @@ RULE = (
     "jump requested; distinct = (shape, body size, requested, limit, level, order class)."
 )
 ASSUMPTIONS = ["SQLite backend", "iteration of an execution = number of durable ->NOT_STARTED re-arm rows of its stage before it (audit log)"]
-MIN_OBS = {"effective_jumps": {"quick": 500, "thorough": 5000}, "limit_hits": {"quick": 30, "thorough": 300}, "interleaved_runs": {"quick": 100, "thorough": 1000}}
+MIN_OBS = {"effective_jumps": {"quick": 500, "thorough": 5000}, "limit_hits": {"quick": 30, "thorough": 300}, "interleaved_runs": {"quick": 100, "thorough": 1000}, "forward_then_backward_runs": {"quick": 5, "thorough": 50}}
 TIMEOUT = {"quick": 600, "thorough": 3000}
 DEFAULT_LIMIT = 10
 
@@ -74,6 +74,9 @@ def gen_cases(tier: str, seed: int) -> list[dict]:
                         continue
                     for order in ("fifo", "random", "hold", "race"):
                         cases.append({"shape": shape, "body": rng.randint(2, 4), "times": times, "max_jumps": mj, "level": rng.choice(["wf", "stage"]), "order": order, "listing": rng.choice(["topo", "reversed", "shuffled"]), "seed": rng.randrange(1 << 30)})
+        for back in (1, 2, 3):
+            for order in ("fifo", "random", "race"):
+                cases.append({"shape": "fwdback", "times": back, "order": order, "seed": rng.randrange(1 << 30)})
     return cases
 
 
@@ -90,7 +93,55 @@ def rearm_set(spec: dict, target: str) -> set[str]:
     return scope
 
 
+def _fwdback(case: dict) -> dict:
+    """A forward jump bypasses a stage in the first iteration, a backward jump then re-arms the whole
+    chain, later iterations run straight through: the bypassed stage must come back to life.
+    a -> s[forward jump to t, once] -> x -> t[jump back to a, `times` times]."""
+    back = case["times"]
+    spec = {
+        "name": f"fwdback{back}",
+        "confluent": True,
+        "stages": [
+            specs.st("a", [], [dict(specs.OK, out=["a_o"])]),
+            specs.st("s", ["a"], [{"kind": "jump", "to": "t", "times": 1, "by_iter": True, "out": ["s_o"]}]),
+            specs.st("x", ["s"], [dict(specs.OK, out=["x_o"]), dict(specs.OK, out=["x_o2"])]),
+            specs.st("t", ["x"], [{"kind": "jump", "to": "a", "times": back, "by_iter": True, "out": ["t_o"]}]),
+        ],
+    }
+    rng = random.Random(case["seed"])
+    obs: Counter = Counter({"evaluations": 1, "forward_then_backward_runs": 1})
+    if case["order"] == "race":
+        from .. import interleave as il
+
+        run, info = il.race_run(spec, rng, max_msgs=900)
+        if run is None:
+            return {"violations": [], "obs": dict(obs), "keys": [], "inconclusive": info.get("failed")}
+        obs["interleaved_runs"] += 1
+    else:
+        run = delivery_run(spec, seed=case["seed"], order=case["order"], noack_p=0.0 if case["order"] == "fifo" else 0.2, max_steps=900)
+    out = []
+    counts = oracles.exec_counts(run.ledger)
+    tot = {}
+    for (ref, ti, _it), n in counts.items():
+        tot[(ref, ti)] = tot.get((ref, ti), 0) + n
+    # iteration 0: a, s (jumps over x), t (jumps back); iterations 1..back: a, s, x, t
+    want = {("a", 0): back + 1, ("s", 0): back + 1, ("x", 0): back, ("x", 1): back, ("t", 0): back + 1}
+    st = run.state["stages"]
+    if not run.quiescent:
+        out.append(viol("C15/did-not-terminate", f"queue not drained after {run.steps} deliveries"))
+    elif run.state["wf"] != "SUCCEEDED" or any(v["status"] != "SUCCEEDED" for v in st.values()):
+        out.append(viol("C15/loop-did-not-succeed", f"forward jump then {back} backward jump(s): workflow {run.state['wf']}, stages { {k: (v['status'], v['tasks']) for k, v in st.items()} }"))
+    if tot != want:
+        out.append(viol("C15/per-iteration-count", f"forward jump then {back} backward jump(s): executions {dict((f'{k[0]}.t{k[1]}', v) for k, v in sorted(tot.items()))}, expected {dict((f'{k[0]}.t{k[1]}', v) for k, v in sorted(want.items()))}"))
+    out = oracles.attribute(out, run, "C15")
+    for v in out:
+        v["spec"] = spec["name"]
+    return {"violations": out[:6], "obs": dict(obs), "keys": [f"fwdback:{back}:{case['order']}"]}
+
+
 def run_case(case: dict) -> dict:
+    if case.get("shape") == "fwdback":
+        return _fwdback(case)
     spec = _spec(case)
     rng = random.Random(case["seed"])
     hold = None
